@@ -227,6 +227,11 @@ func (ct *Contract) mentions(prop string) bool {
 			return true
 		}
 	}
+	for _, t := range ct.Serves {
+		if t == prop {
+			return true
+		}
+	}
 	return false
 }
 
